@@ -10,7 +10,8 @@
 From Cashews Require Import Base.Prelude.
 Open Scope Z_scope.
 
-Inductive cmd := Get (k : nat) | Put (k : nat) (v : Z) | Incr (k : nat) (d : Z) | Del (k : nat) | Sleep (n : Z).
+Inductive cmd := Get (k : nat) | Put (k : nat) (v : Z) | Incr (k : nat) (d : Z) | Del (k : nat) | Sleep (n : Z)
+               | PutIf (k : nat) (v : Z) (want : bool).   (* set(..., exist=want): written only if the key's presence equals want *)
 Inductive mode := Fast | Locked | Serial.
 Record block := { bmode : mode; bcmds : list cmd; braise : bool }.
 Inductive item := Direct (c : cmd) | Txn (b : block).
@@ -27,7 +28,8 @@ Definition remk (l : list nat) (k : nat) := filter (fun x => negb (Nat.eqb x k))
 Definition upd {A} (t : nat -> A) (k : nat) (v : A) := fun x => if Nat.eqb x k then v else t x.
 
 (* the local effect of an executed command, with the value a read-through returned *)
-Inductive lcmd := LPut (k : nat) (v : Z) | LIncr (k : nat) (d : Z) (base : option (option Z)) | LDel (k : nat).
+Inductive lcmd := LPut (k : nat) (v : Z) | LIncr (k : nat) (d : Z) (base : option (option Z)) | LDel (k : nat)
+                | LPutIf (k : nat) (v : Z) (want hit : bool).     (* hit: the condition held and the value was written *)
 Definition lapply (od : list (nat * Z) * list nat) (c : lcmd) : list (nat * Z) * list nat :=
   let '(ov, dl) := od in
   match c with
@@ -39,6 +41,7 @@ Definition lapply (od : list (nat * Z) * list nat) (c : lcmd) : list (nat * Z) *
                  end in
       (put ov k (cur + d), remk dl k)
   | LDel k => (remove ov k, if memk k dl then dl else k :: dl)
+  | LPutIf k v _ hit => if hit then (put ov k v, remk dl k) else (ov, dl)
   end.
 
 Inductive phase := PBody (pending : list cmd) | PCommitDel | PCommitSet | PUnlock.
@@ -58,13 +61,13 @@ Record cfg := { now : Z; store : nat -> option Z; locks : nat -> option (nat * Z
                 timeout : Z; attempts : nat;
                 wlog : list (nat * nat * wkind * list lcmd) }.   (* ghost: who wrote the store: task, token, kind, effects of the block *)
 
-Inductive bk := BGet | BPut | BIncr | BDel | BSetLock | BUnlock | BDelMany | BSetMany.
+Inductive bk := BGet | BPut | BIncr | BDel | BSetLock | BUnlock | BDelMany | BSetMany | BExists.
 Inductive obs := Idle | Local | Back (b : bk) (k : nat) (r : option Z).
 Inductive event := Run (i : nat) (hint : nat) | Tick (dt : Z).
 
 Definition lock_key (m : mode) (k : nat) : nat := match m with Serial => O | _ => S k end.
-Definition is_write (c : cmd) := match c with Put _ _ | Incr _ _ | Del _ => true | _ => false end.
-Definition cmd_key (c : cmd) := match c with Get k | Put k _ | Incr k _ | Del k => k | Sleep _ => O end.
+Definition is_write (c : cmd) := match c with Put _ _ | Incr _ _ | Del _ | PutIf _ _ _ => true | _ => false end.
+Definition cmd_key (c : cmd) := match c with Get k | Put k _ | Incr k _ | Del k | PutIf k _ _ => k | Sleep _ => O end.
 Definition heldb (h : list (nat * Z)) (lk : nat) := existsb (fun x => Nat.eqb (fst x) lk) h.
 Definition lock_free (c : cfg) (lk : nat) := match locks c lk with Some (_, d) => d <=? now c | None => true end.
 Definition b2z (b : bool) : option Z := Some (if b then 1 else 0).
@@ -94,6 +97,10 @@ Definition direct (c : cfg) (i : nat) (t : task) (cm : cmd) (rest : list item) :
       ({| now := now c; store := upd (store c) k None; locks := locks c; tasks := upd (tasks c) i (fin (b2z (isSomeZ (store c k)))); fresh := fresh c;
           timeout := timeout c; attempts := attempts c; wlog := wlog c ++ [(i, O, WDirect, [LDel k])] |}, Back BDel k (b2z (isSomeZ (store c k))))
   | Sleep n => (set_task c i {| items := rest; cur := None; wake := now c + n; outs := outs t ++ [Ok [None]] |}, Local)
+  | PutIf k v want =>
+      let hit := Bool.eqb (isSomeZ (store c k)) want in
+      ({| now := now c; store := if hit then upd (store c) k (Some v) else store c; locks := locks c; tasks := upd (tasks c) i (fin (b2z hit)); fresh := fresh c;
+          timeout := timeout c; attempts := attempts c; wlog := wlog c ++ [(i, O, WDirect, [LPutIf k v want hit])] |}, Back BPut k (b2z hit))
   end.
 
 (* the next command of a block's body, the lock (if one is needed) being held *)
@@ -121,6 +128,14 @@ Definition body_cmd (c : cfg) (i : nat) (t : task) (x : txn) (cm : cmd) (pend : 
       (set_task c i (with_cur t (Some (next ov dl (Some 1) [LDel k]))), Local)
   | Sleep n =>
       (set_task c i {| items := items t; cur := Some (next (tov x) (tdel x) None []); wake := now c + n; outs := outs t |}, Local)
+  | PutIf k v want =>
+      (* TransactionBackend.set: "exists" is answered by the overlay, then by the delete set, then by the store *)
+      let known := match lookup (tov x) k with Some _ => Some true | None => if memk k (tdel x) then Some false else None end in
+      let ex := match known with Some b => b | None => isSomeZ (store c k) end in
+      let hit := Bool.eqb ex want in
+      let '(ov, dl) := lapply (tov x, tdel x) (LPutIf k v want hit) in
+      (set_task c i (with_cur t (Some (next ov dl (b2z hit) [LPutIf k v want hit]))),
+       match known with Some _ => Local | None => Back BExists k (b2z (isSomeZ (store c k))) end)
   end.
 
 Definition fail_with (x : txn) (locked : bool) : txn :=
